@@ -471,7 +471,7 @@ def run_property(prop_id: str, tier: str, seed: int, jobs: int) -> int:
                 f"from {fnd['replay']}"
             )
 
-    shrink_steps = 400 if tier == "quick" else 4000
+    shrink_steps = getattr(mod, "SHRINK_STEPS", {}).get(tier, 400 if tier == "quick" else 4000)
     todo = []
     for key, b in sorted(total["buckets"].items()):
         owner = None
